@@ -92,6 +92,21 @@ def get_index(path):
     return _idx_cache[path]
 
 
+_SPEC_LEMMAS = None
+
+
+def spec_lemma_names():
+    """Names of the proof functions defined in /verif/specs/*.rs (the lemma library; nothing in it mentions the code under verification)."""
+    global _SPEC_LEMMAS
+    if _SPEC_LEMMAS is None:
+        _SPEC_LEMMAS = set()
+        d = os.path.join(ROOT, "specs")
+        for fn in os.listdir(d):
+            if fn.endswith(".rs"):
+                _SPEC_LEMMAS.update(re.findall(r"proof\s+fn\s+(\w+)", open(os.path.join(d, fn)).read()))
+    return _SPEC_LEMMAS
+
+
 def run_verus(unit, expanded, must_fail=False, sub="common"):
     """Render and verify one unit; returns dict with per-function results."""
     idx = get_index(expanded)
@@ -157,6 +172,10 @@ def run_verus(unit, expanded, must_fail=False, sub="common"):
             smt_total += fb.get("time", 0) / 1000.0
     # map diagnostics to real functions via the line map
     failures = []
+    try:
+        src_lines = open(path).read().split("\n")
+    except OSError:
+        src_lines = []
     for d in diags:
         msg = d["message"]
         prim = [s for s in d["spans"] if s.get("is_primary")] or d["spans"]
@@ -180,7 +199,17 @@ def run_verus(unit, expanded, must_fail=False, sub="common"):
             cls = "ticks"
         if "rlimit" in msg.lower() or "resource limit" in msg.lower():
             cls = "rlimit"
-        failures.append({"unit": unit, "item": item, "class": cls, "message": msg,
+        library = None
+        if item is None:
+            # a failure inside a lemma of /verif/specs (pure mathematics, no dependence on the code under verification) can only be
+            # solver instability: it is reported as UNDECIDED, never as a violation
+            for k in range(min(prim[0]["line_start"], len(src_lines)) - 1, -1, -1):
+                mm = re.match(r"\s*(?:pub\s+)?(?:broadcast\s+)?proof\s+fn\s+(\w+)", src_lines[k])
+                if mm:
+                    if mm.group(1) in spec_lemma_names():
+                        library = mm.group(1)
+                    break
+        failures.append({"unit": unit, "item": item, "class": cls, "message": msg, "library": library,
                          "line": prim[0]["line_start"], "text": (prim[0].get("text") or [{}])[0].get("text", "").strip()[:200],
                          "rendered": d.get("rendered", "")[:1500]})
     return {"unit": unit, "path": path, "table": table, "linemap": linemap, "funcs": funcs,
@@ -318,7 +347,9 @@ def check_property(pid, tier, seed):
                                     "clauses": row.get("n_requires", 0) + row.get("n_ensures", 0)})
         # lemma / spec obligations of the unit (functions not in the table) count for every property using the unit
         for fl in r["failures"]:
-            if fl["item"] is None:
+            if fl["item"] is None and fl.get("library"):
+                undecided.append("library lemma %s (specs/, pure mathematics) did not verify in unit %s: %s" % (fl["library"], r["unit"], fl["message"]))
+            elif fl["item"] is None:
                 failed.append(dict(fl, owned_as="lemma"))
             elif fl["item"] in owned_items:
                 if any(row["item"] == fl["item"] and row.get("soft") for row in r["table"]):
